@@ -55,7 +55,7 @@ def run(prop, tier, replay):
         mc = run_tlc("MCStCore", "MCStCore", workers=1, timeout=600, tag=f"mc-{prop}")
         n_rand = 700 if tier == "quick" else 12000
         scripts = []
-        parts = [("matrix", ["--slice", s % 4, "--of", 4] if tier == "quick" else []), ("strict", ["--runs", n_rand]), ("natural", ["--runs", n_rand])]
+        parts = [("matrix", ["--slice", s % 4, "--of", 4] if tier == "quick" else []), ("strict", ["--runs", n_rand]), ("natural", ["--runs", n_rand]), ("pous", ["--runs", n_rand])]
         for name, extra in parts:
             f = work / f"s_{name}.ndjson"
             tpv(["stcore-gen", "--seed", s, "--profile", name, "--out", f] + extra)
@@ -126,7 +126,7 @@ def run(prop, tier, replay):
         "states": max(mc["distinct"], 1) + len(rows), "transitions": max(mc["generated"], 1) + len(rows),
         "traces_validated_against_impl": len(runs),
         "programs_typed_core": len(runs), "cycles_validated": ncyc, "programs_wide_generator": len(wide_rows),
-        "profiles": {p: sum(1 for r in runs if scripts[r[0]["script"]]["profile"] == p) for p in ("matrix", "strict", "natural")},
+        "profiles": {p: sum(1 for r in runs if scripts[r[0]["script"]]["profile"] == p) for p in ("matrix", "strict", "natural", "pous")},
         "outcomes": outcomes,
         "runtime_cycle_runs_tag_checked": rc_runs, "runtime_cycle_events_tag_checked": rc_events,
         "evaluations": len(runs) + len(wide_rows),
@@ -138,6 +138,6 @@ def run(prop, tier, replay):
         "exhaustive": False,
     }
     return rep.finish(cov, assumptions=[
-        "StCore covers BOOL, SINT, INT, DINT, USINT, UINT, BYTE, WORD, one-dimensional arrays, IF/CASE/FOR/WHILE/EXIT; 64-bit, REAL and TIME values are only judged by the outcome contract (TLC integers are 32-bit)",
+        "StCore covers BOOL, SINT, INT, DINT, USINT, UINT, BYTE, WORD, one-dimensional arrays, structs, IF/CASE/FOR/WHILE/REPEAT/EXIT/CONTINUE/RETURN, FUNCTION calls (named arguments, defaults, VAR_IN_OUT, nested), FUNCTION_BLOCK instances with state; 64-bit, REAL and TIME values are only judged by the outcome contract (TLC integers are 32-bit)",
         "FOR whose final increment leaves the control variable's type: normal termination or Overflow accepted; two faulting sub-expressions of one indexed assignment: either fault accepted",
         "a mismatch in a program that contains an assignment whose right-hand side is not of the target's declared type is attributed to the listed finding (non-converting assignment); programs without such an assignment are judged exactly"])
